@@ -141,7 +141,7 @@ def r2(ctx, R, g, rx):
 def _record(ctx, g, e):
     """the three components of a hit record: a 3-element display, or a call of a 3-field
     NamedTuple class of the package"""
-    if isinstance(e, (ast.List, ast.Tuple)) and len(e.elts) == 3:
+    if isinstance(e, (ast.List, ast.Tuple)) and len(e.elts) == 3 and not any(isinstance(x, ast.Starred) for x in e.elts):
         return list(e.elts)
     if isinstance(e, ast.Call) and isinstance(e.func, ast.Name) and len(e.args) == 3 and not e.keywords and not any(isinstance(a, ast.Starred) for a in e.args):
         cq = ctx.m.resolve_class_name(g.rel, e.func.id)
